@@ -565,7 +565,21 @@ GLOBAL_MACROS = r"""
          (then (make-syntactic-closure env '(it) (car (cddr expr))))
          (alt (make-syntactic-closure env '() (cadr (cddr expr)))))
      `(let ((it ,test)) (if it ,then ,alt))))))
+(define-syntax esc-sum (syntax-rules () ((_ a b) (... (+ a (- b 1))))))
+(define-syntax esc-or2 (syntax-rules () ((_ a b) (... (let ((t a)) (if t t b))))))
+(define-syntax esc-dots (syntax-rules () ((_ a ...) (+ (length '((... ...) a ... (... ...))) a ...))))
+(define-syntax esc-nest (syntax-rules () ((_ (a b ...) ...) (+ (* a ((... +) 0 b ...)) ...))))
+(define-syntax esc-custom (syntax-rules ::: () ((_ a b :::) (+ (::: (- a 1)) (let ((... 2)) (* ... (+ b ::: 0)))))))
+(define-syntax esc-dot (syntax-rules () ((_ a . rest) (... (+ a . rest)))))
+(define-syntax esc-vec (syntax-rules () ((_ a b) (+ a b (if (eq? (vector-ref '#(a (... ...) tmp) 2) 'tmp) 4 0)))))
+(define-syntax esc-deep (syntax-rules () ((_ (a ...) ...) (+ 0 (... (- 0 1)) (car (list a ... 0)) ... (... (* 1 1))))))
 """
+
+# identifiers the templates of the esc-* macros insert under an ellipsis escape / next to one (round 4): a user
+# variable bound around the use and passed as an argument may take any of these names
+ESC_NAMES = {'sum': ["+", "-"], 'or': ["t", "if", "let"], 'dots': ["+", "length", "quote"], 'nest': ["+", "*"],
+             'custom': ["-", "+", "let", "*", "..."], 'dotted': ["+"], 'vec': ["+", "if", "eq?", "tmp"],
+             'deep': ["-", "*", "+", "car", "list"]}
 
 # names a renamed user variable may take: core keywords, derived keywords, standard procedures, names
 # free in the templates above, temporaries of init-7.scm's own macros (cond/or/do/case/syntax-rules ...)
@@ -574,7 +588,7 @@ ADVERSARIAL = ["if", "lambda", "let", "set!", "quote", "begin", "define", "else"
                "not", "eq?", "memv", "apply", "append", "map", "t", "tmp", "loop", "i", "res", "ls", "len", "lp", "expr",
                "rename", "compare", "v", "e", "a", "b", "x", "y", "n", "c", "body", "clause", "rest", "name", "var", "_", "...",
                "my-or2", "my-cond", "flat", "er-macro-transformer", "syntax-rules", "define-syntax", "let-syntax", "key", "tmp2",
-               "p", "q", "e1", "e2", "temps", "letrec-syntax", "it"]
+               "p", "q", "e1", "e2", "temps", "letrec-syntax", "it", "*", "length"]
 
 
 Q_SYMS = ["tag", "one", "two", "else", "t", "tmp", "if", "x", "loop", "quote"]
@@ -673,7 +687,7 @@ class Gen:
                   'builtin-or', 'builtin-cond', 'builtin-do', 'builtin-let*', 'named-let', 'getter', 'let-syntax',
                   'letrec-syntax', 'my-if', 'sc-or2', 'incby', 'builtin-case', 'builtin-and', 'local-define-syntax', 'when',
                   'else-var', 'else-var-builtin', 'kwlist', 'aif',
-                  'syn-sibling', 'syn-sibling', 'encl-kw', 'gen-ordered', 'gen-or', 'kw-after', 'qdata', 'qdata']
+                  'syn-sibling', 'syn-sibling', 'encl-kw', 'gen-ordered', 'gen-or', 'kw-after', 'qdata', 'qdata', 'esc', 'esc', 'esc']
         s = rng.choice(shapes) if force is None else force
         self.shapes.add(s)
         E = lambda sc=scope, d=depth - 1: self.expr(sc, d)
@@ -797,6 +811,37 @@ class Gen:
             # cdrs of an alist with non-symbol keys, vector slots, nested - and must come out as plain symbols
             kind = rng.choice(['sr', 'sr', 'er'])
             return ('mac', s, [kind, qdata_datum(rng), E()])
+        if s == 'esc':
+            # templates under an ellipsis escape (... tmpl), (... ...), nested ellipsis depth, a custom ellipsis identifier,
+            # dotted and vector templates: the identifiers they insert must be renamed like any other.  V is a user
+            # variable bound around the use and passed in: it may be called like any identifier the template inserts
+            kind = rng.choice(sorted(ESC_NAMES))
+            V = self.newvar()
+            sc2 = scope + [V]
+            def A():
+                r = rng.random()
+                if r < 0.5:
+                    return ('var', V)
+                if r < 0.75:
+                    return self.atom(sc2)
+                return self.expr(sc2, min(depth - 1, 1))
+            if kind in ('sum', 'vec'):
+                args = [A(), A()]
+            elif kind == 'or':
+                args = [('bool', False) if rng.random() < 0.5 else A(), A()]
+            elif kind == 'dots':
+                args = [A() for _ in range(rng.choice([0, 1, 2, 3]))]
+            elif kind in ('nest', 'deep'):
+                args = [[A()] + [A() for _ in range(rng.choice([0, 1, 2]))] for _ in range(rng.choice([1, 2, 3]))]
+            elif kind == 'custom':
+                args = [A()] + [A() for _ in range(rng.choice([0, 1, 2]))]
+            else:
+                args = [A() for _ in range(rng.choice([1, 2, 3]))]
+            flat = []
+            for x in args:
+                flat.extend(x if isinstance(x, list) else [x])
+            self.extra[V] = [(n, flat) for n in ESC_NAMES[kind]]
+            return ('let', [(V, E())], ('mac', s, [kind, args]))
         if s == 'aif':
             it = self.newvar()
             self.fixed[it] = 'it'
@@ -1026,6 +1071,31 @@ class Renderer:
                 return "((lambda () (define-syntax %s (syntax-rules () ((_ e1) %s))) (%s %s)))" % (nm(WITH), t1, nm(WITH), R(e))
             return "((lambda () (define-syntax %s (syntax-rules () ((_ e2) (let-syntax ((%s (syntax-rules () ((_ e1) %s)))) (%s e2))))) (%s %s)))" % (
                 nm(WITH2), nm(WITH), t1, nm(WITH), nm(WITH2), R(e))
+        if s == 'esc':
+            kind, args = a
+            if kind in ('nest', 'deep'):
+                groups = [[R(x) for x in grp] for grp in args]
+                if not ref:
+                    return "(esc-%s %s)" % (kind, " ".join("(%s)" % " ".join(grp) for grp in groups))
+                if kind == 'nest':
+                    return "(+ %s)" % " ".join("(* %s (+ 0 %s))" % (grp[0], " ".join(grp[1:])) for grp in groups)
+                return "(+ 0 (- 0 1) %s (* 1 1))" % " ".join("(car (list %s 0))" % " ".join(grp) for grp in groups)
+            xs = [R(x) for x in args]
+            if not ref:
+                return "(esc-%s %s)" % ({'sum': 'sum', 'or': 'or2', 'dots': 'dots', 'custom': 'custom', 'dotted': 'dot', 'vec': 'vec'}[kind], " ".join(xs))
+            if kind == 'sum':
+                return "(+ %s (- %s 1))" % (xs[0], xs[1])
+            if kind == 'or':
+                g = self.fresh()
+                return "((lambda (%s) (if %s %s %s)) %s)" % (g, g, g, xs[1], xs[0])
+            if kind == 'dots':
+                return "(+ %d %s)" % (len(xs) + 2, " ".join(xs))
+            if kind == 'custom':
+                g = self.fresh()
+                return "(+ (- %s 1) ((lambda (%s) (* %s (+ %s 0))) 2))" % (xs[0], g, g, " ".join(xs[1:]))
+            if kind == 'dotted':
+                return "(+ %s)" % " ".join(xs)
+            return "(+ %s %s 4)" % (xs[0], xs[1])
         if s == 'letrec-syntax':
             m1, m2, e1, e2 = a
             if ref:
@@ -1093,7 +1163,7 @@ def run_outer(ctx, d, nprog):
     run_corpus(ctx, d)
     exprs, meta = [], []
     FOCUS = ['syn-sibling', 'syn-sibling', 'encl-kw', 'kw-after', 'gen-ordered', 'gen-or', 'letrec-syntax', 'let-syntax',
-             'getter', 'local-define-syntax', 'qdata', 'qdata', 'qdata']
+             'getter', 'local-define-syntax', 'qdata', 'qdata', 'qdata', 'esc', 'esc', 'esc', 'esc']
     nfocus = max(40, nprog // 5)
     for p in range(nprog + nfocus):
         g = Gen(rng)
@@ -1137,6 +1207,8 @@ def run_outer(ctx, d, nprog):
                     cn = names[cand] if isinstance(cand, int) else cand
                     txt = " ".join(Renderer(names, False).r(x) for x in must_not_use)
                     tk = set(TOKEN_RE.findall(txt))
+                    if "'" in txt:
+                        tk.add("quote")
                     if cn not in tk and cn not in used_new and cn != names[v] and not (isinstance(cand, int) and names[cand] != mac_names[cand]):
                         n = cn
                         used_new.add(cn)
@@ -1472,7 +1544,7 @@ def name_class(n):
     if n in ("else", "=>", "and", "or", "cond", "case", "do", "let*", "letrec", "when", "unless", "quasiquote", "unquote",
              "syntax-rules", "er-macro-transformer", "_", "..."):
         return "derived-keyword"
-    if n in ("list", "cons", "car", "cdr", "+", "-", ">", "<", "=", "not", "eq?", "memv", "apply", "append", "map"):
+    if n in ("list", "cons", "car", "cdr", "+", "-", ">", "<", "=", "not", "eq?", "memv", "apply", "append", "map", "*", "length"):
         return "standard-procedure"
     if re.fullmatch(r"u[0-9]+", n):
         return "program-name"
@@ -1889,6 +1961,380 @@ def run_renamer(ctx, d, exe, nscripts):
             ctx.broken("correspondence:renamer", "model differs from make-renamer and from the judge: model=%s impl=%s script=%s" % (m, i, ops))
 
 
+
+# =====================================================================================================
+# K-inner (templates, round 4): the real syntax-rules compiler (syntax-rules-transformer: expand-pattern + expand-template,
+# lib/init-7.scm:849-1100) vs the extracted expand-template model (coq/C07/Template.v: compile + eval) and an
+# independent Python judge (R7RS instantiation where chibi agrees with it).  Terms: ('S', n) identifier, ('R', n) renamed
+# identifier (syntactic closure), ('U', k) user atom, ('L', n) number, ('N',) (), ('P', a, d), ('V', list-term).
+# =====================================================================================================
+T_DOTS = 900        # the symbol `...`
+T_CUSTOM = 901      # a custom ellipsis identifier (s901)
+T_NIL = ('N',)
+
+
+def t_list(items, tail=T_NIL):
+    out = tail
+    for x in reversed(items):
+        out = ('P', x, out)
+    return out
+
+
+def t_text(t):
+    k = t[0]
+    if k == 'S':
+        return "..." if t[1] == T_DOTS else "s%d" % t[1]
+    if k == 'U':
+        return "u%d" % t[1]
+    if k == 'L':
+        return str(t[1])
+    if k == 'N':
+        return "()"
+    if k == 'V':
+        return "#" + t_text(t[1])
+    items = []
+    while t[0] == 'P':
+        items.append(t_text(t[1])); t = t[2]
+    return "(%s%s)" % (" ".join(items), "" if t == T_NIL else " . " + t_text(t))
+
+
+def t_prefix(t):
+    k = t[0]
+    if k == 'N':
+        return "N"
+    if k == 'P':
+        return "P %s %s" % (t_prefix(t[1]), t_prefix(t[2]))
+    if k == 'V':
+        return "V " + t_prefix(t[1])
+    return "%s%d" % (k, t[1])
+
+
+def t_of_value(v):
+    """a binding value: a term, or a python list of values (one per repetition)"""
+    return t_list([t_of_value(x) for x in v]) if isinstance(v, list) else v
+
+
+def t_syms(t, out):
+    if t[0] == 'S':
+        out.append(t[1])
+    elif t[0] == 'P':
+        t_syms(t[1], out); t_syms(t[2], out)
+    elif t[0] == 'V':
+        t_syms(t[1], out)
+    return out
+
+
+class TmplGen:
+    def __init__(self, rng):
+        self.rng = rng
+        self.nvar = 0
+        self.nuser = 0
+        r = rng.random()
+        self.ell, self.off = (T_DOTS, False) if r < 0.7 else ((T_CUSTOM, False) if r < 0.93 else (T_DOTS, True))
+        self.vars = []          # (symbol number, dim) in pattern order
+        self.features = set()
+        self.error_planted = False
+
+    # ---- pattern + matching input -------------------------------------------------------------------
+    def user(self):
+        rng = self.rng
+        def atom():
+            if rng.random() < 0.8:
+                self.nuser += 1
+                return ('U', self.nuser)
+            return ('L', rng.randrange(0, 50))
+        r = rng.random()
+        if r < 0.65:
+            return atom()
+        if r < 0.9:
+            return t_list([atom() for _ in range(rng.choice([0, 1, 2]))])
+        return ('V', t_list([atom()]))
+
+    def pattern(self, dim, depth):
+        """returns (pattern term, matcher); matcher() -> (input term, {var: value})"""
+        rng = self.rng
+        if depth <= 0 or rng.random() < 0.45:
+            self.nvar += 1
+            v = self.nvar
+            self.vars.append((v, dim))
+            def m():
+                x = self.user()
+                return x, {v: x}
+            return ('S', v), m
+        n = rng.choice([0, 1, 1, 2])
+        subs = [self.pattern(dim, depth - 1) for _ in range(n)]
+        esub = self.pattern(dim + 1, depth - 1) if (dim < 2 and not self.off and rng.random() < 0.75) else None
+        vec = rng.random() < 0.12
+        evars = []
+        if esub is not None:
+            evars = [v for (v, d) in self.vars if v in t_syms(esub[0], [])]
+        def m():
+            items, b = [], {}
+            for (_, mm) in subs:
+                x, bb = mm(); items.append(x); b.update(bb)
+            if esub is not None:
+                reps = [esub[1]() for _ in range(rng.choice([0, 1, 2, 2, 3]))]
+                items.extend(x for x, _ in reps)
+                for v in evars:
+                    b[v] = [bb[v] for _, bb in reps]
+            x = t_list(items)
+            return (('V', x) if vec else x), b
+        pitems = [pt for (pt, _) in subs] + ([esub[0], ('S', self.ell)] if esub is not None else [])
+        pt = t_list(pitems)
+        return (('V', pt) if vec else pt), m
+
+    # ---- template ------------------------------------------------------------------------------------
+    def atom(self, ctx, esc):
+        rng = self.rng
+        r = rng.random()
+        ok = [v for (v, d) in self.vars if d <= ctx]
+        if r < 0.38 or not self.vars:
+            if (esc or self.ell != T_DOTS or self.off) and rng.random() < 0.3:
+                return ('S', T_DOTS)          # `...` as an ordinary identifier
+            return ('S', rng.choice([10, 11, 12, 13, 14, 15]))
+        if r < 0.8 and ok:
+            return ('S', rng.choice(ok))
+        if r < 0.83 and not self.error_planted:
+            bad = [v for (v, d) in self.vars if d > ctx]
+            if bad:
+                self.error_planted = True
+                self.features.add('too-few')
+                return ('S', rng.choice(bad))
+        if r < 0.93:
+            return ('L', rng.randrange(0, 50))
+        return T_NIL
+
+    def tmpl(self, ctx, esc, depth):
+        rng = self.rng
+        if depth <= 0:
+            return self.atom(ctx, esc)
+        r = rng.random()
+        mark = ('S', self.ell)
+        if r < 0.25:
+            return self.atom(ctx, esc)
+        if r < 0.37 and not self.off:
+            # the ellipsis escape: (... tmpl) or (... t1 t2 ..) (then the cdr is the template)
+            self.features.add('escape' if not esc else 'escape-in-escape')
+            if rng.random() < 0.7:
+                inner = mark if rng.random() < 0.2 else self.tmpl(ctx, True, depth - 1)
+                if inner == mark:
+                    self.features.add('literal-ellipsis')
+                return t_list([mark, inner])
+            self.features.add('escape-multi')
+            return ('P', mark, t_list([self.tmpl(ctx, True, depth - 1) for _ in range(rng.choice([0, 2, 3]))],
+                                      self.atom(ctx, True) if rng.random() < 0.2 else T_NIL))
+        if r < 0.47:
+            self.features.add('vector')
+            return ('V', self.seq(ctx, esc, depth, False))
+        return self.seq(ctx, esc, depth, True)
+
+    def seq(self, ctx, esc, depth, dotted_ok):
+        rng = self.rng
+        items = []
+        for _ in range(rng.choice([1, 2, 2, 3, 4])):
+            k = rng.choice([1, 1, 1, 2])
+            deep = [v for (v, d) in self.vars if d >= ctx + k]
+            if not esc and not self.off and deep and rng.random() < 0.45:
+                v = rng.choice(deep)
+                self.features.add('ellipsis-%d' % k)
+                if rng.random() < 0.3:
+                    sub = ('S', v)
+                else:
+                    inner = [self.tmpl(ctx + k, esc, depth - 1) for _ in range(rng.choice([0, 1, 2]))]
+                    inner.insert(rng.randrange(len(inner) + 1), ('S', v) if rng.random() < 0.7 else t_list([('S', 13), ('S', v)]))
+                    sub = t_list(inner)
+                    if k > 1:
+                        self.features.add('ellipsis-%d-compound' % k)
+                items.append(sub)
+                items.extend([('S', self.ell)] * k)
+            elif not esc and not self.off and not self.error_planted and rng.random() < 0.02:
+                self.error_planted = True
+                self.features.add('too-many')
+                items.append(self.atom(ctx, esc) if rng.random() < 0.5 else t_list([('S', 12), ('L', 1)]))
+                items.append(('S', self.ell))
+            else:
+                x = self.tmpl(ctx, esc, depth - 1)
+                items.append(x)
+        tail = T_NIL
+        if dotted_ok and rng.random() < 0.18:
+            tail = self.atom(ctx, esc)
+            if tail[0] == 'S':
+                self.features.add('dotted')
+        # a generated element must not be read as a mark by accident
+        if not esc and not self.off:
+            if items and items[0] == ('S', self.ell):
+                items.insert(0, ('S', 10))
+        return t_list(items, tail)
+
+
+class TJudgeErr(Exception):
+    pass
+
+
+class TNoJudge(Exception):
+    pass
+
+
+def t_judge(g, t, binds):
+    """R7RS instantiation; ('ERR', kind) | term; raises TNoJudge where chibi's ellipsis handling is its own"""
+    dims = dict(g.vars)
+    is_mark = (lambda x: False) if g.off else (lambda x: x == ('S', g.ell))
+
+    def static(t, ctx, esc, errs):
+        k = t[0]
+        if k == 'S':
+            if t[1] in dims and dims[t[1]] > ctx:
+                errs.add('few')
+        elif k == 'V':
+            static(t[1], ctx, esc, errs)
+        elif k == 'P':
+            a, d = t[1], t[2]
+            if not esc and is_mark(a):
+                static(d[1] if (d[0] == 'P' and d[2] == T_NIL) else d, ctx, True, errs)
+            elif not esc and d[0] == 'P' and is_mark(d[1]):
+                depth, tail = 0, d
+                while tail[0] == 'P' and is_mark(tail[1]):
+                    depth += 1; tail = tail[2]
+                if not [v for v in t_syms(a, []) if v in dims and dims[v] >= ctx + depth]:
+                    errs.add('many')
+                    return
+                static(a, ctx + depth, esc, errs)
+                static(tail, ctx, esc, errs)
+            else:
+                static(a, ctx, esc, errs); static(d, ctx, esc, errs)
+
+    errs = set()
+    static(t, 0, False, errs)
+    if errs:
+        return ('ERR', sorted(errs))
+
+    def J(t, env, esc):
+        k = t[0]
+        if k == 'S':
+            if t[1] in env:
+                rem, val = env[t[1]]
+                if rem > 0:
+                    raise TNoJudge()
+                return val
+            return ('R', t[1])
+        if k == 'V':
+            return ('V', J(t[1], env, esc))
+        if k != 'P':
+            return t
+        a, d = t[1], t[2]
+        if not esc and is_mark(a):
+            return J(d[1] if (d[0] == 'P' and d[2] == T_NIL) else d, env, True)
+        if not esc and d[0] == 'P' and is_mark(d[1]):
+            depth, tail = 0, d
+            while tail[0] == 'P' and is_mark(tail[1]):
+                depth += 1; tail = tail[2]
+            evs = [v for v in dict.fromkeys(t_syms(a, [])) if v in env and env[v][0] >= depth]
+            if depth >= 2:
+                if not (a[0] == 'S' and a[1] in env):
+                    raise TNoJudge()
+                val = env[a[1]][1]
+                for _ in range(depth - 1):
+                    val = [x for sub in val for x in sub]
+                if env[a[1]][0] != depth:
+                    raise TNoJudge()
+                outs = list(val)
+            else:
+                lens = set(len(env[v][1]) for v in evs)
+                if len(lens) != 1:
+                    raise TNoJudge()
+                outs = []
+                for i in range(lens.pop()):
+                    e2 = dict(env)
+                    for v in evs:
+                        e2[v] = (env[v][0] - 1, env[v][1][i])
+                    outs.append(J(a, e2, esc))
+            rest = J(tail, env, esc)
+            return t_list(outs, rest)
+        return ('P', J(a, env, esc), J(d, env, esc))
+
+    env = {v: (dims[v], binds[v]) for v in dims}
+    return J(t, env, False)
+
+
+def run_template(ctx, d, exe, ncases):
+    rng = ctx.rng
+    cases, reqs = [], []
+    for n in range(ncases):
+        g = TmplGen(rng)
+        pats = [g.pattern(0, rng.choice([1, 2, 3])) for _ in range(rng.choice([1, 2, 3]))]
+        tm = g.tmpl(0, False, rng.choice([1, 2, 3, 3, 4]))
+        ins, binds = [], {}
+        for (_, m) in pats:
+            x, b = m(); ins.append(x); binds.update(b)
+        pattern = t_list([('S', 20)] + [pt for (pt, _) in pats])
+        head = "syntax-rules" + (" s%d" % T_CUSTOM if g.ell == T_CUSTOM else "") + (" (...)" if g.off else " ()")
+        spec = "(%s (%s %s))" % (head, "(_%s)" % t_text(pattern)[4:-1] if len(pats) else "(_)", t_text(tm))
+        form = t_text(t_list([('S', 21)] + ins))
+        req = "tmpl %d %d %d %s %s %d %s" % (g.ell, 1 if g.off else 0, len(g.vars), " ".join("%d %d" % vd for vd in g.vars), t_prefix(tm),
+                                             len(g.vars), " ".join("%d %s" % (v, t_prefix(t_of_value(binds[v]))) for v, _ in g.vars))
+        try:
+            exp = t_judge(g, tm, binds)
+        except TNoJudge:
+            exp = None
+        cases.append((n, g, spec, form, tm, exp)); reqs.append(req)
+    mo = ctx.run_model(exe, reqs)
+    path = os.path.join(B.SCRATCH, "c07_tmpl_%d.cases" % os.getpid())
+    with open(path, "w") as fh:
+        for (n, g, spec, form, tm, exp) in cases:
+            fh.write("(%d %s %s)\n" % (n, spec, form))
+    try:
+        r = B.run_chibi(d, [os.path.join(ROOT, "harness", "c07_template.scm"), path], timeout=180 if not ctx.thorough else 900)
+    finally:
+        os.unlink(path)
+    impl = {}
+    for line in r.stdout.split("\n"):
+        sp = line.find(" ")
+        if sp > 0 and line[:sp].isdigit():
+            impl[int(line[:sp])] = line[sp + 1:].strip()
+    if "DONE" not in r.stdout:
+        ctx.broken("template-correspondence:C07", "template driver died rc=%s after %d/%d cases: %s" % (r.returncode, len(impl), len(cases), r.stderr[-600:]))
+    shown = 0
+    for (n, g, spec, form, tm, exp) in cases:
+        if n not in impl:
+            continue
+        i, m = impl[n], mo[n]
+        feats = sorted(g.features)
+        ctx.count(1, key=("tmpl", spec, form), nontrivial=bool(g.features))
+        ctx.cov["traces_validated_against_impl"] += 1
+        if exp is None:
+            e = None
+        elif exp[0] == 'ERR':
+            e = "ERR " + exp[1][0] if len(exp[1]) == 1 else None
+        else:
+            e = t_prefix(exp)
+        replay = "echo '(0 %s %s)' > /tmp/c07t.case; chibi-scheme %s /tmp/c07t.case   # expected: 0 %s" % (spec, form, os.path.join(ROOT, "harness", "c07_template.scm"), e or m)
+        bare = [tok for tok in i.split() if tok[0] == 'S'] if not i.startswith("ERR") else []
+        if bare:
+            where = "escaped" if any(f.startswith('escape') for f in feats) and all(b not in t_prefix(strip_escapes(tm, g)).split() for b in bare) else "plain"
+            ctx.violation("template:inserted-identifier-not-renamed:" + where, input=dict(rule=spec, use=form), expected=e or m, observed=i, features=feats, replay=replay,
+                          why="every identifier of a syntax-rules template that is not a pattern variable must be inserted through the renamer (a syntactic closure over the "
+                              "macro's definition environment); a bare symbol would be looked up at the use site (theorem template_inserted_identifiers_are_renamed)")
+        elif e is not None and i != e:
+            ctx.violation("template:instantiation-differs" + (":" + feats[0] if feats else ""), input=dict(rule=spec, use=form), expected=e, observed=i, model=m, features=feats, replay=replay,
+                          why="the instantiated template must be the substitution of the pattern variables (ellipsis repetition, escapes, vectors, dotted tails) with all other identifiers renamed")
+        elif m != i and not (exp is not None and exp[0] == 'ERR' and len(exp[1]) > 1 and i.startswith("ERR") and m.startswith("ERR")):
+            ctx.broken("correspondence:template", "model expand_template differs from syntax-rules: model=%s impl=%s rule=%s use=%s" % (m, i, spec, form))
+        elif shown < 2 and ('escape' in g.features or 'ellipsis-2' in g.features) and not i.startswith("ERR"):
+            ctx.sample(dict(kind="template", rule=spec, use=form, output=i, features=feats)); shown += 1
+
+
+def strip_escapes(t, g):
+    """the template with every escaped sub-template removed (to tell where a bare identifier came from)"""
+    if g.off:
+        return t
+    if t[0] == 'P':
+        if t[1] == ('S', g.ell):
+            return T_NIL
+        return ('P', strip_escapes(t[1], g), strip_escapes(t[2], g))
+    if t[0] == 'V':
+        return ('V', strip_escapes(t[1], g))
+    return t
+
 # =====================================================================================================
 def run(ctx):
     n_scen, n_prog, n_mid = (150, 250, 400) if not ctx.thorough else (4000, 6000, 20000)
@@ -1914,6 +2360,12 @@ def run(ctx):
                        "plain / in a list / as a dotted tail, alist cdr, quasi-quote, whole datum; closures single, double, around a form) + random data + lists and "
                        "nesting at the depth bound +-1, real sexp_strip_synclos vs strip_synclos and the specification. outer-imports: 40 (thorough 1200) library "
                        "programs x (hand expansion, fresh import names, 3 variants with imports / locals renamed to the macros' local names). "
+                       "round 4 - templates: 400 (thorough 6000) random syntax-rules rules (patterns with variables at ellipsis depth 0-2 in lists and vectors; templates with "
+                       "inserted identifiers, pattern variables, 1-2 trailing ellipses on variables and compound sub-templates, (... tmpl) / (... t1 t2 ..) escapes, (... ...), "
+                       "escapes inside escapes, vectors, dotted tails, a custom ellipsis identifier (23 %) with `...` as an ordinary identifier, the ellipsis among the literals (7 %), "
+                       "one planted too-few / too-many error) run through the real syntax-rules-transformer and compared with the extracted compile + eval and a Python judge; "
+                       "non-trivial = the template has an ellipsis, an escape, a vector or a dotted identifier tail. outer: shape esc (8 macros whose templates insert identifiers under "
+                       "escapes / next to (... ...) / at ellipsis depth 2 / with a custom ellipsis / in dotted and vector templates; the user variable passed in may take each inserted name). "
                        "mid: forms now include let-syntax / letrec-syntax with 1-3 specs whose keyword names collide with variables, siblings and template identifiers")
     ctx.coq_obligations("Properties_C07")
     d = ctx.build("default")
@@ -1923,6 +2375,7 @@ def run(ctx):
     run_inner(ctx, d, exe, n_scen)
     run_strip(ctx, d, exe, 150 if not ctx.thorough else 6000)
     run_renamer(ctx, d, exe, 120 if not ctx.thorough else 3000)
+    run_template(ctx, d, exe, 400 if not ctx.thorough else 6000)
     run_mid(ctx, d, exe, n_mid)
     run_outer(ctx, d, n_prog)
     run_outer_imports(ctx, d, 40 if not ctx.thorough else 1200)
@@ -1933,5 +2386,9 @@ def run(ctx):
                "let-syntax / letrec-syntax are inside the model for single-rule ellipsis-free specs written with plain symbols (duplicate letrec-syntax keywords excluded)")
     ctx.assume("quoted data are trees: the cycle test of sexp_contains_syntax_p_bound (eval.c:625-626) and sharing are outside the model; the strip theorems hold for data whose "
                "car/cdr/vector path length is below SEXP_STRIP_SYNCLOS_BOUND (%d in the scratch build; at the bound the model and the implementation are compared, not the specification)" % STRIP_BOUND)
+    ctx.assume("expand-template (round 4) is modelled on symbol numbers: ellipsis-mark? (compare / eq? on the ellipsis identifier) is symbol equality, i.e. the definition "
+               "environment does not rebind the ellipsis; template identifiers that are already closures (templates produced by another macro) and the pattern matcher "
+               "(its bindings are an input of the model; generated patterns: variables, lists / vectors with one trailing ellipsis, depth <= 2) are outside Template.v; "
+               "improper lists handed to map / append by the generated code (an error in Scheme) are truncated in the model")
     ctx.assume("rename_invariance_core is stated for guarded runs, which refuse let-syntax / letrec-syntax: programs with local syntax definitions are covered by K-mid / K-outer only")
     ctx.assume("(scheme base) let-syntax / letrec-syntax wrap the core splicing forms in (let () ..): the analyze comparison drops that parameterless lambda")
